@@ -742,6 +742,17 @@ pub fn check_standstill_generic(
             }
         }
     }
+    // forwarding half: a real Votor that saw the same events must broadcast the whole bundle,
+    // whatever its own pruning state
+    match pw::votor_forwards_bundle(h, *ev_slot, certs, votes) {
+        Ok(None) => kernel::probe("c18_votor_forwarded_whole_bundle"),
+        Ok(Some(what)) => kernel::violation(
+            "C18",
+            "forward:bundle-item-not-broadcast",
+            format!("Votor, given the standstill bundle emitted at step {step} (finalized slot {fin}), did not broadcast {what}"),
+        ),
+        Err(()) => kernel::probe("c18_votor_probe_inconclusive"),
+    }
 }
 
 /// All ordered pairs of the five vote kinds x {same, different} block, each on a fresh slot.
